@@ -1,5 +1,213 @@
 package schedseq
 
-import "verif/mc"
+import (
+	"context"
+	"fmt"
+	"sort"
+	"strings"
 
-func seqs() []*mc.Seq { return nil }
+	"verif/mc"
+
+	remoteexecution "github.com/bazelbuild/remote-apis/build/bazel/remote/execution/v2"
+	"github.com/buildbarn/bb-remote-execution/pkg/scheduler/initialsizeclass"
+	"github.com/buildbarn/bb-remote-execution/pkg/scheduler/invocation"
+	"github.com/buildbarn/bb-remote-execution/pkg/scheduler/platform"
+	"github.com/buildbarn/bb-remote-execution/pkg/scheduler/routing"
+	"github.com/buildbarn/bb-storage/pkg/digest"
+	"google.golang.org/grpc/codes"
+	"google.golang.org/grpc/status"
+)
+
+// Engine B: direct enumeration of operation sequences on the two sequential
+// components C05 anchors besides the build queue: platform.Trie and
+// routing.DemultiplexingActionRouter. Reference: a map plus a naive
+// longest-prefix scan. States are NOT merged (the key is the history), since
+// the internal shape of the trie is not observable: every sequence up to the
+// depth is executed.
+
+var (
+	seqPrefixes  = []string{"", "a", "a/b", "b"}
+	seqPlatforms = []string{"P1", "P2"}
+	seqProbes    = []string{"", "a", "a/b", "a/b/c", "ab", "b", "b/a", "c"}
+)
+
+type refEntry struct {
+	prefix, platform string
+	value            int
+}
+
+func refLongest(ref []refEntry, inst, plat string) int {
+	best, bestLen := -1, -1
+	for _, e := range ref {
+		if e.platform == plat && instancePrefixOf(e.prefix, inst) && len(e.prefix) > bestLen {
+			best, bestLen = e.value, len(e.prefix)
+		}
+	}
+	return best
+}
+
+func refExact(ref []refEntry, inst, plat string) int {
+	for _, e := range ref {
+		if e.platform == plat && e.prefix == inst {
+			return e.value
+		}
+	}
+	return -1
+}
+
+type trieState struct {
+	trie *platform.Trie
+	ref  []refEntry
+	hist []string
+}
+
+func trieSeq() *mc.Seq {
+	var ops []mc.SeqOp
+	find := func(st *trieState, p, q string) int {
+		for i, e := range st.ref {
+			if e.prefix == p && e.platform == q {
+				return i
+			}
+		}
+		return -1
+	}
+	n := 0
+	for _, p := range seqPrefixes {
+		for _, q := range seqPlatforms {
+			p, q := p, q
+			n++
+			v := n
+			ops = append(ops, mc.SeqOp{Name: fmt.Sprintf("set %q %s =%d", p, q, v), Do: func(c *mc.SeqCtx, s any) {
+				st := s.(*trieState)
+				st.trie.Set(platform.MustNewKey(p, platforms[q]), v)
+				if i := find(st, p, q); i >= 0 {
+					st.ref[i].value = v
+				} else {
+					st.ref = append(st.ref, refEntry{p, q, v})
+				}
+				st.hist = append(st.hist, fmt.Sprintf("s%d", v))
+			}})
+			// Overwrite with another value (the scheduler does this when
+			// it moves the last platform queue into a freed slot).
+			ops = append(ops, mc.SeqOp{Name: fmt.Sprintf("set %q %s =0", p, q), Enabled: func(s any) bool { return find(s.(*trieState), p, q) >= 0 }, Do: func(c *mc.SeqCtx, s any) {
+				st := s.(*trieState)
+				st.trie.Set(platform.MustNewKey(p, platforms[q]), 0)
+				st.ref[find(st, p, q)].value = 0
+				st.hist = append(st.hist, fmt.Sprintf("z%d", v))
+			}})
+			ops = append(ops, mc.SeqOp{Name: fmt.Sprintf("remove %q %s", p, q), Enabled: func(s any) bool { return find(s.(*trieState), p, q) >= 0 }, Do: func(c *mc.SeqCtx, s any) {
+				st := s.(*trieState)
+				st.trie.Remove(platform.MustNewKey(p, platforms[q]))
+				i := find(st, p, q)
+				st.ref = append(st.ref[:i:i], st.ref[i+1:]...)
+				st.hist = append(st.hist, fmt.Sprintf("r%d", v))
+			}})
+		}
+	}
+	return &mc.Seq{
+		Name: "c05-trie", Props: []string{"C05"}, Panics: []string{"C05"},
+		New:   func(c *mc.SeqCtx) any { return &trieState{trie: platform.NewTrie()} },
+		Ops:   ops,
+		Key:   func(s any) string { return strings.Join(s.(*trieState).hist, ",") },
+		Depth: map[string]int{"quick": 4, "thorough": 5},
+		Check: func(c *mc.SeqCtx, s any) {
+			st := s.(*trieState)
+			for _, inst := range seqProbes {
+				for _, q := range seqPlatforms {
+					k := platform.MustNewKey(inst, platforms[q])
+					if got, want := st.trie.GetLongestPrefix(k), refLongest(st.ref, inst, q); got != want {
+						c.FailP("C05", "trie/longest-prefix", "after %v: GetLongestPrefix(%q, %s) = %d, the longest registered prefix has value %d (registered: %v)", st.hist, inst, q, got, want, st.ref)
+						return
+					}
+					if got, want := st.trie.GetExact(k), refExact(st.ref, inst, q); got != want {
+						c.FailP("C05", "trie/exact", "after %v: GetExact(%q, %s) = %d, want %d (registered: %v)", st.hist, inst, q, got, want, st.ref)
+						return
+					}
+					if got, want := st.trie.ContainsExact(k), refExact(st.ref, inst, q) >= 0; got != want {
+						c.FailP("C05", "trie/contains", "after %v: ContainsExact(%q, %s) = %v, want %v (registered: %v)", st.hist, inst, q, got, want, st.ref)
+						return
+					}
+				}
+			}
+		},
+	}
+}
+
+// ---------------------------------------------------------------------------
+
+type tagRouter struct{ tag string }
+
+func (r tagRouter) RouteAction(ctx context.Context, digestFunction digest.Function, action *remoteexecution.Action, requestMetadata *remoteexecution.RequestMetadata) (*remoteexecution.Action, platform.Key, []invocation.Key, initialsizeclass.Selector, error) {
+	return action, platform.Key{}, []invocation.Key{invocation.Key(r.tag)}, nil, nil
+}
+
+type demuxState struct {
+	ar   *routing.DemultiplexingActionRouter
+	ref  []refEntry
+	tags []string
+	hist []string
+}
+
+func demuxSeq() *mc.Seq {
+	var ops []mc.SeqOp
+	for _, p := range seqPrefixes {
+		for _, q := range seqPlatforms {
+			p, q := p, q
+			ops = append(ops, mc.SeqOp{Name: fmt.Sprintf("register %q %s", p, q), Do: func(c *mc.SeqCtx, s any) {
+				st := s.(*demuxState)
+				tag := fmt.Sprintf("router#%d(%q,%s)", len(st.tags), p, q)
+				err := st.ar.RegisterActionRouter(mustInst(p), platforms[q], tagRouter{tag})
+				dup := refExact(st.ref, p, q) >= 0
+				st.hist = append(st.hist, fmt.Sprintf("%q/%s", p, q))
+				switch {
+				case dup && status.Code(err) != codes.AlreadyExists:
+					c.FailP("C05", "demux/duplicate", "after %v: second registration of (%q, %s) returned %v, want AlreadyExists", st.hist, p, q, err)
+				case !dup && err != nil:
+					c.FailP("C05", "demux/register", "after %v: registration of (%q, %s) failed: %v", st.hist, p, q, err)
+				case !dup:
+					st.ref = append(st.ref, refEntry{p, q, len(st.tags)})
+					st.tags = append(st.tags, tag)
+				}
+			}})
+		}
+	}
+	return &mc.Seq{
+		Name: "c05-demux", Props: []string{"C05"}, Panics: []string{"C05"},
+		New: func(c *mc.SeqCtx) any {
+			return &demuxState{ar: routing.NewDemultiplexingActionRouter(platform.ActionKeyExtractor, tagRouter{"default"})}
+		},
+		Ops: ops,
+		Key: func(s any) string {
+			st := s.(*demuxState)
+			// Registration order determines the stored indices.
+			var l []string
+			for _, e := range st.ref {
+				l = append(l, fmt.Sprintf("%q/%s", e.prefix, e.platform))
+			}
+			return strings.Join(l, ",")
+		},
+		Depth: map[string]int{"quick": 4, "thorough": 6},
+		Check: func(c *mc.SeqCtx, s any) {
+			st := s.(*demuxState)
+			for _, inst := range seqProbes {
+				for _, q := range seqPlatforms {
+					_, _, keys, _, err := st.ar.RouteAction(context.Background(), digest.MustNewFunction(inst, remoteexecution.DigestFunction_SHA256), &remoteexecution.Action{Platform: platforms[q]}, nil)
+					want := "default"
+					if i := refLongest(st.ref, inst, q); i >= 0 {
+						want = st.tags[i]
+					}
+					if err != nil || len(keys) != 1 || string(keys[0]) != want {
+						c.FailP("C05", "demux/route", "after registering %v: request for instance %q platform %s was routed to %v (err %v), the router with the longest registered prefix is %s", st.hist, inst, q, keys, err, want)
+						return
+					}
+				}
+			}
+		},
+	}
+}
+
+func seqs() []*mc.Seq {
+	l := []*mc.Seq{trieSeq(), demuxSeq()}
+	sort.Slice(l, func(i, j int) bool { return l[i].Name < l[j].Name })
+	return l
+}
